@@ -11,11 +11,7 @@ from ..absval import Raised
 from ..core import AnalysisError, own_nodes, norm
 from .. import pdrules
 
-LEVEL_TEXT = ('static analysis: (D1) a kind system for index values (family LABEL | POSITION, endpoint FIRST | LAST | ONE_PAST), inferred for '
-              'every slice bound and comparison in CopyNumArray.by_gene (and the helpers of its module it calls) from where the value comes from '
-              '(_get_gene_map stores index labels; a pd.Series(np.arange(len), index=<table>.index) lookup turns a label into a position): .loc '
-              'slices need labels and a LAST upper bound (closed), .iloc slices positions and a ONE_PAST / next-FIRST upper bound (half-open), '
-              "label arithmetic and label-vs-position or ONE_PAST-vs-LAST strict comparisons are errors -- necessary for 'each bin exactly once';"
+LEVEL_TEXT = ('static analysis:'
               ' (D1b) by_gene interpreted on 1383 literal tables (1-4 bins over names A, B, -, Antitarget x every placement of chromosome '
               "boundaries, plus longer hand-picked ones, restricted to the property's premise; index labels that are not the positions): it "
               "yields, in order, each gene's first..last bins and the Antitarget stretches before, between and after them, every bin exactly "
@@ -38,37 +34,10 @@ LEVEL_TEXT = ('static analysis: (D1) a kind system for index values (family LABE
               'readers, library step and writers stubbed: bins and segments in their roles, threshold, minimum bin count, --drop-low-coverage and'
               " the sex options reach the report functions as given. Does not decide behaviour on interleaved genes (outside the property's "
               'premise).')
-TECHNIQUE = ("index-kind type system over one function's def-use chains; bounded exhaustive interpretation of by_gene on literal tables with "
+TECHNIQUE = ("bounded exhaustive interpretation of by_gene on literal tables with "
              'literal index labels; abstract interpretation of the summary functions on symbolic rows')
 
 BYGENE = "cnvlib.cnary.CopyNumArray.by_gene"
-
-
-def d1(chk, prog):
-    chk.clause("D1", "slice and comparison kinds in by_gene: labels vs positions, closed vs half-open upper bounds")
-    chk.rule("index-kind", ".loc[a:b] needs labels with b a group's LAST label; .iloc[a:b] needs positions with b one past the end; no arithmetic on "
-             "labels; no label/position or one-past/last strict comparison")
-    fi = prog.fn(BYGENE)
-    # by_gene and the helpers of its own module it hands the partition to
-    scope, work = [fi], [fi]
-    while work:
-        f = work.pop()
-        for c in own_nodes(f.node):
-            if isinstance(c, ast.Call) and isinstance(c.func, ast.Name):
-                g = prog.maybe_fn(f"{f.mod}.{c.func.id}")
-                if g is not None and g not in scope:
-                    scope.append(g)
-                    work.append(g)
-    total = 0
-    for f in scope:
-        problems, n = pdrules.index_kind_problems(prog, f)
-        total += n
-        for node, text in problems:
-            chk.violate("index-kind", f"{f.qn}::{norm(node)[:70]}", f.loc(node), text, witness=dict(example="bins of the second chromosome carry labels 9..17 but positions 0..8; "
-                                                                                                      "findings/repro_c16.py: 4 of 9 bins are yielded twice"))
-        if not problems and n:
-            chk.ok("index-kind", f"{f.name}: {n} slices / comparisons are kind-correct", where=f.loc(), cells=n)
-    chk.floor("slices / comparisons typed in by_gene and its helpers", total, 1)
 
 
 def d1b(chk, prog):
@@ -553,7 +522,8 @@ def run(chk):
               "np.average(x, weights=w) = sum(x w)/sum(w)")
     chk.assume("premise of the property: each gene's bins are consecutive on one chromosome")
     d1b(chk, prog)
-    d1(chk, prog)
+    # (an earlier D1 typed the slices and comparisons of by_gene as labels / positions by a flow-insensitive inference keyed on the helper that builds the gene map;
+    #  every seeded change and mutant it caught is caught by D1b's interpretation on literal tables whose labels are not the positions, and a renamed or moved helper left it undecided: retired)
     d2(chk, prog)
     d3a(chk, prog)
     d3(chk, prog)
